@@ -333,3 +333,25 @@ def add_twin_loci(w, per_chrom=3, offsets=(2, 3, 4, 6), n_reads=3, prefix="NG", 
                     w.make_read(chrom, g.transcripts[2].exons, truth={"src": gid + ".tS", "class": "twin-skip"}, flag=rng.choice((0, 16)))
             pos = p + rng.randint(2500, 3500)
     return made
+
+
+def intronic_novel_loci(w, gid, chrom, pos, strand, n_reads=12):
+    """A two-exon annotated gene with a 4.6-kb intron and two unannotated three-exon transcripts of the same strand inside that
+    intron (no splice site shared with the annotation): the novel loci are scored against the annotated gene when novel genes are
+    joined to existing ones.  gid is used verbatim (lower-case ids sort after 'novel_gene_...')."""
+    ref = [(pos, pos + 400), (pos + 5000, pos + 5400)]
+    inner = [[(pos + 1000, pos + 1300), (pos + 1600, pos + 1900), (pos + 2200, pos + 2500)],
+             [(pos + 3000, pos + 3300), (pos + 3600, pos + 3900), (pos + 4200, pos + 4500)]]
+    g = Gene(gid, chrom, strand)
+    g.transcripts.append(Transcript(gid + "-201", gid, chrom, strand, ref, True, "long-intron-host"))
+    for k, e in enumerate(inner):
+        g.hidden.append(Transcript("%s_inner%d" % (gid, k + 1), gid, chrom, strand, e, False, "intronic-novel-locus"))
+    for t in g.transcripts + g.hidden:
+        for i in t.introns:
+            w.plant_sites(chrom, i, strand)
+    w.genes.append(g)
+    for t in g.transcripts + g.hidden:
+        for _ in range(n_reads):
+            w.make_read(chrom, list(t.exons), polya=30 if strand == "+" else 0, polyt=30 if strand == "-" else 0,
+                        flag=0 if strand == "+" else 16, truth={"src": t.id, "class": t.kind, "annotated": t.annotated})
+    return g, pos + 5400
